@@ -100,7 +100,8 @@ func (db *DB) Merge() error {
 		for {
 			logRecord, logRecordPos, err := reader.NextLogRecord()
 			if err != nil {
-				if err == io.EOF {
+				// 不完整的末尾写入同样视为文件末尾, 与加载索引时一致
+				if err == io.EOF || err == io.ErrUnexpectedEOF {
 					break
 				}
 				return err
